@@ -190,6 +190,17 @@ def check_scaler(ctx):
                     # tolerance from the error bound of the Welford update as coded (NOT of a sum-of-squares formula)
                     bnd = _welford_bound(uu, abs(ref_mu) / sd, len(hist_q[0]), N, t_idx + 1)
                     tol_m2 = 2 * bnd * ref_m2
+                    # plus the jump term the fitted bound does not have: a batch far from the running mean (an outlier
+                    # first value, then a constant batch) makes `delta2 = x − mean_new` inherit the rounding error of
+                    # the mean update, ≈ u·n_b·max|x − mean_old|, once per element: |ΔM2| ≲ u·n_b·max|delta|²·log n_b
+                    # (false alarm at thorough seed 7: 958.76 followed by 33 × 7.806 in float32, |ΔM2|/M2 = 3.4e-6)
+                    jump, mean_before = 0.0, 0.0
+                    for bi in range(t_idx + 1):
+                        xs = [float(v) for v in hist_q[bi]]
+                        md = max(abs(x - mean_before) for x in xs)
+                        jump += len(xs) * md * md * math.log2(len(xs) + 2)
+                        mean_before = float(s_mean[bi])
+                    tol_m2 += 4 * uu * jump
                 else:
                     tol_m2 = 16 * uu * max(scale_mag * scale_mag * N, 1e-300)  # constant data: M2 should be ~0
                 good = abs(mu - ref_mu) <= 8 * uu * scale_mag * math.sqrt(t_idx + 2) and abs(m2 - ref_m2) <= tol_m2
